@@ -7,9 +7,8 @@ use super::{
 use rhymessage::MessageHeaders;
 
 fn parse_chunk_size(chunk_size_line: &str) -> Result<usize, Error> {
-    let delimiter = chunk_size_line
-        .find(|c| c == ';' || c == '\r')
-        .unwrap_or_else(|| chunk_size_line.len());
+    let delimiter =
+        chunk_size_line.find(';').unwrap_or_else(|| chunk_size_line.len());
     let chunk_size = &chunk_size_line[..delimiter];
     parse_unsigned(chunk_size, 16).map_err(Error::InvalidChunkSize)
 }
